@@ -163,7 +163,7 @@ RULES = {
     "C09": "scenarios incl. parallel problems whose Jacobian has more than 2^15 entries (128 samples x 70 right-hand sides, 8200 samples); case = (scenario, phase in {caller history <= d over 3 parameter vectors, fit, fit_with_statistics}, failing model-call index k < n, transient|persistent, model keeps|stores rejected parameters); non-trivial = the injected failure actually fired",
     "C12": "case = (family/shape with N from M to M+P+3, width, provenance, weights, one of four solver set-ups (default, huge xtol, zero observations, zero tolerances = a failed fit), build profile) plus a failure at every model call of the statistics phase, plus bit-exact perfect fits (one basis function, exactly representable values), plus every case of the C13 grid (and, thorough, of the C14 grid); non-trivial = statistics code entered (successful fit) and either the identities were checked or the under-determined/faulted case was rejected",
     "C13": "case = (incidence pattern | Z1-Z5, N incl. values around 128/1024, weights incl. zero/negative entries and KeepOnly(M+P[+1,+3]) = exact zeros everywhere else, noise vector, amplitude 1e-5..4e9, width, provenance[, parallel]); builder call order varied with (N+S) mod 3; non-trivial = covariance compared entry-wise with the reference AND all reference variances pairwise distinct (ordering observable)",
-    "C14": "case = (family, nu = N-M-P in 1..30 and 100, weights, width, provenance, amplitude 1, 1e-6, 1e6) x every p of the alphabet (11 levels incl. values within one ulp of 1 in f32), queried largest-first then ascending so that consecutive fits with different degrees of freedom request the same level back to back; nu in 1..30, 100, 995, 1001, 1201, 5000; non-trivial = fits whose band was compared with the reference table",
+    "C14": "case = (family, nu = N-M-P in 1..30 and 100, weights, width, provenance, amplitude 1, 1e-6, 1e6) x every p of the alphabet (13 levels from 1e-12 to values within one ulp of 1 in f32), queried largest-first then ascending so that consecutive fits with different degrees of freedom request the same level back to back; nu in 1..30, 100, 995, 1001, 1201, 5000; non-trivial = fits whose band was compared with the reference table",
     "C15": "every word new(l).s1..sk.build() with l from 6 parameter lists and s_i from the 26-symbol alphabet, k <= L (L=4 quick, 6 thorough), plus every <=k-edit deviation (insert/delete/substitute/swap over a 58-symbol pool; k=1 quick, 2 thorough) of 10 valid templates; each word is executed on the real builder and on the reference specification automaton; a state is a builder call history (the builder accumulates its history, so the state graph is the word tree); every word counts as distinct and non-trivial",
 }
 
@@ -184,7 +184,7 @@ ASSUMPTIONS = {
     "C09": ["failures are injected by a wrapper model; the wrapped zoo models never fail on their own"],
     "C12": ["under-determined shapes up to M,P <= 3; the identities are additionally judged on every successful fit of the covariance grid (and, thorough, of the band grid)", "success of a fit is read off the optimizer's TerminationReason, not off FitResult::was_successful()"],
     "C13": ["reference covariance from one-sided Jacobi SVD in f64; entry-wise comparison skipped when 4096*eps*kappa(H^T H) > 0.25 (finiteness, accessors and the correlation identity are judged for every Ok result)", "sigma^2 of the reference is rebuilt from W(y - Phi c); the library's value is used only when the two agree within the rounding of the residuals"],
-    "C14": ["reference quantiles from scipy.stats.t (harness/data/tquant.json)", "tolerance 2e-4 reflects the accuracy of the distrs crate's quantile", "the band is compared with t*sqrt(j^T Cov j) for the covariance the library reports (C13 judges that covariance); samples whose quadratic form cancels by more than 1e-2/(64 eps dim) are only required to be finite and non-negative"],
+    "C14": ["reference quantiles from scipy.stats.t (harness/data/tquant.json)", "tolerance 2e-4 relative plus 1e-8 absolute in t reflects the accuracy of the distrs crate's quantile (it returns exactly 0 for p below about 1e-8)", "the band is compared with t*sqrt(j^T Cov j) for the covariance the library reports (C13 judges that covariance); samples whose quadratic form cancels by more than 1e-2/(64 eps dim) are only required to be finite and non-negative"],
     "C15": [
         "the reference automaton in harness/src/mbref.rs is the specification (written from the property text and rustdoc)",
         "function arities 1..3 and the name pool {a,b,c,d,'a,b'} are representative of arities 1..10 (the builder logic is arity-generic; the per-arity dispatch is C16's subject)",
